@@ -5,6 +5,8 @@ rendering are in the second half of this file).
 import Nsq.Proofs.ChanCount
 import Nsq.Proofs.ChanInvA
 import Nsq.Props.C02
+import Nsq.Props.C01
+import Nsq.Model.ChanStats
 namespace Nsq.Props.C13
 open Nsq.Model.Chan Nsq.Proofs.Chan
 
@@ -114,5 +116,128 @@ example : ReachableA {} (run {} {} [.put 7, .addClient 1 60 0, .rdy 1 1, .delive
   ⟨false, 0, _, by decide, rfl⟩
 example : (run ({} : Conf) {} [.put 7, .addClient 1 60 0, .rdy 1 1, .deliver 1 7 100, .fin 1 7]).clients.map
     (fun cl => (cl.rdy, cl.inFlight, cl.msgCount, cl.finCount)) = [(1, 0, 1, 1)] := by decide
+
+
+/-! ## topic level and rendering -/
+section Nsqd
+open Nsq.Model.ChanNsqd Nsq.Proofs.ChanNsqd Nsq.Model.ChanStats
+
+/-- C13.2 `topic_conservation` (count) — in every reachable state a topic's `message_count` is the
+number of acknowledged publishes plus the messages enqueued by failed MPUBs (their prefix), and
+these are exactly the ids sitting in the topic queue or already fanned out. -/
+theorem topic_conservation {s : State} (h : C01.NReachable s) {t : Topic} (ht : t ∈ s.topics) :
+    t.msgCount = t.acked.length + t.unacked.length ∧
+    (∀ i, (i ∈ t.acked ∨ i ∈ t.unacked) ↔ (i ∈ t.queue.map (·.id) ∨ i ∈ t.pumped)) :=
+  let hi := (C01.nreachable_inv h).topics t ht
+  ⟨hi.count, hi.ackq⟩
+
+/-- C13.2 (bytes) — every publish to an existing topic adds exactly the body bytes of what it
+enqueued: PUB/DPUB the message, MPUB all messages, a failed MPUB the prefix that was enqueued before
+the failing write; other topics are untouched. -/
+theorem topic_bytes (s : State) (t : Nat) {tp : Topic} (hf : findT s.topics t = some tp)
+    (op : Nsq.Model.ChanNsqd.Op) (nb nc : Nat)
+    (hop : (∃ sz, op = .pub t sz ∧ nb = sz ∧ nc = 1) ∨ (∃ sz d, op = .dpub t sz d ∧ nb = sz ∧ nc = 1) ∨
+           (∃ sizes, op = .mpub t sizes ∧ nb = sizes.sum ∧ nc = sizes.length) ∨
+           (∃ sizes j, op = .mpubFail t sizes j ∧ j < sizes.length ∧ nb = (sizes.take j).sum ∧ nc = j)) :
+    ∀ y' ∈ (Nsq.Model.ChanNsqd.step s op).1.topics, ∃ y ∈ s.topics, y'.tid = y.tid ∧
+      (y.tid = t → y'.msgBytes = y.msgBytes + nb ∧ y'.msgCount = y.msgCount + nc) ∧ (y.tid ≠ t → y' = y) := by
+  have hens : ensureTopic s t = s := by simp [ensureTopic, hf]
+  have key : ∀ (f : Topic → Topic), (∀ z, (f z).tid = z.tid ∧ (f z).msgBytes = z.msgBytes + nb ∧ (f z).msgCount = z.msgCount + nc) →
+      ∀ y' ∈ updT s.topics t f, ∃ y ∈ s.topics, y'.tid = y.tid ∧
+        (y.tid = t → y'.msgBytes = y.msgBytes + nb ∧ y'.msgCount = y.msgCount + nc) ∧ (y.tid ≠ t → y' = y) := by
+    intro f hfz y' hy'
+    obtain ⟨z, hz, rfl⟩ := mem_updT.1 hy'
+    refine ⟨z, hz, ?_⟩
+    by_cases hk : z.tid = t
+    · simp only [hk, ↓reduceIte]
+      exact ⟨hk ▸ (hfz z).1, fun _ => (hfz z).2, fun h => absurd rfl h⟩
+    · rw [if_neg hk]
+      exact ⟨rfl, fun h => absurd h hk, fun _ => rfl⟩
+  rcases hop with ⟨sz, rfl, rfl, rfl⟩ | ⟨sz, d, rfl, rfl, rfl⟩ | ⟨sizes, rfl, rfl, rfl⟩ | ⟨sizes, j, rfl, hj, rfl, hnc⟩
+  · simp only [Nsq.Model.ChanNsqd.step, hens]
+    exact key _ (fun z => by obtain ⟨q, hq, _⟩ := putT_spec z s.nextId nb 0; simp [hq])
+  · simp only [Nsq.Model.ChanNsqd.step, hens]
+    exact key _ (fun z => by obtain ⟨q, hq, _⟩ := putT_spec z s.nextId nb d; simp [hq])
+  · simp only [Nsq.Model.ChanNsqd.step, hens]
+    exact key _ (fun z => by obtain ⟨q, hq, _⟩ := putMany_spec z s.nextId sizes; simp [hq])
+  · subst hnc
+    have hj' : ¬ nc ≥ sizes.length := by omega
+    simp only [Nsq.Model.ChanNsqd.step, hens]
+    rw [if_neg hj']
+    exact key _ (fun z => by obtain ⟨q, hq, _⟩ := putMany_spec z s.nextId (sizes.take nc); simp [hq])
+
+theorem mem_filterSnap {ft fc : Option Nat} {incl : Bool} {snap : List TStat} {t' : TStat}
+    (h : t' ∈ filterSnap ft fc incl snap) :
+    ∃ t ∈ snap, t'.tid = t.tid ∧ t'.nums = t.nums ∧ t'.bytes = t.bytes ∧
+      ∀ c' ∈ t'.chans, ∃ c ∈ t.chans, c'.cid = c.cid ∧ c'.nums = c.nums ∧ c'.nclients = c.nclients ∧
+        c'.clients = (if incl then c.clients else []) := by
+  unfold filterSnap at h
+  -- stage 1: topic filter
+  have h1 : ∀ x ∈ (match ft with | none => snap | some t => snap.filter (fun x => x.tid == t)), x ∈ snap := by
+    intro x hx
+    cases ft with
+    | none => exact hx
+    | some t => exact (List.mem_filter.1 hx).1
+  -- stage 2: channel filter
+  have h2 : ∀ x ∈ (match fc with
+      | none => (match ft with | none => snap | some t => snap.filter (fun x => x.tid == t))
+      | some c => (match ft with | none => snap | some t => snap.filter (fun x => x.tid == t)).filterMap (fun (t : TStat) =>
+          if t.chans.any (fun x => x.cid == c) then some { t with chans := t.chans.filter (fun x => x.cid == c) } else none)),
+      ∃ t ∈ snap, x.tid = t.tid ∧ x.nums = t.nums ∧ x.bytes = t.bytes ∧ ∀ c' ∈ x.chans, c' ∈ t.chans := by
+    intro x hx
+    cases fc with
+    | none => exact ⟨x, h1 x hx, rfl, rfl, rfl, fun _ h => h⟩
+    | some c =>
+      simp only [List.mem_filterMap] at hx
+      obtain ⟨y, hy, hyx⟩ := hx
+      split at hyx
+      · cases hyx
+        exact ⟨y, h1 y hy, rfl, rfl, rfl, fun c' hc' => (List.mem_filter.1 hc').1⟩
+      · cases hyx
+  cases incl with
+  | true =>
+    simp only [↓reduceIte] at h
+    obtain ⟨t, ht, e1, e2, e3, e4⟩ := h2 t' h
+    exact ⟨t, ht, e1, e2, e3, fun c' hc' => ⟨c', e4 c' hc', rfl, rfl, rfl, rfl⟩⟩
+  | false =>
+    simp only [Bool.false_eq_true, ↓reduceIte, List.mem_map] at h
+    obtain ⟨x, hx, rfl⟩ := h
+    obtain ⟨t, ht, e1, e2, e3, e4⟩ := h2 x hx
+    refine ⟨t, ht, e1, e2, e3, ?_⟩
+    intro c' hc'
+    simp only [stripClients, List.mem_map] at hc'
+    obtain ⟨c, hc, rfl⟩ := hc'
+    exact ⟨c, e4 c hc, rfl, rfl, rfl, rfl⟩
+
+/-- C13.5 `render_agree` — the JSON and the text rendering, under every topic / channel /
+include_clients filter, are projections of one snapshot: every row they show is (the projection
+of) the row of the unfiltered JSON rendering for the same (topic, channel) key (text omits
+`message_bytes` and `client_count`; `include_clients=false` omits the client list). -/
+theorem render_agree (s : State) (fmt : Fmt) (ft fc : Option Nat) (incl : Bool) :
+    ∀ r ∈ rows fmt (filterSnap ft fc incl (snapshot s)),
+      ∃ r' ∈ rows .json (snapshot s), r'.key = r.key ∧ project fmt incl r' = r := by
+  intro r hr
+  simp only [rows, List.mem_flatMap, List.mem_cons, List.mem_map] at hr
+  obtain ⟨t', ht', hr⟩ := hr
+  obtain ⟨t, ht, e1, e2, e3, e4⟩ := mem_filterSnap ht'
+  rcases hr with rfl | ⟨c', hc', rfl⟩
+  · refine ⟨topicRow .json t, ?_, ?_, ?_⟩
+    · simp only [rows, List.mem_flatMap, List.mem_cons, List.mem_map]
+      exact ⟨t, ht, Or.inl rfl⟩
+    · simp [topicRow, e1]
+    · cases fmt <;> cases incl <;> simp [project, topicRow, e1, e2, e3]
+  · obtain ⟨c, hc, f1, f2, f3, f4⟩ := e4 c' hc'
+    refine ⟨chanRow .json t.tid c, ?_, ?_, ?_⟩
+    · simp only [rows, List.mem_flatMap, List.mem_cons, List.mem_map]
+      exact ⟨t, ht, Or.inr ⟨c, hc, rfl⟩⟩
+    · simp [chanRow, e1, f1]
+    · cases fmt <;> cases incl <;> simp_all [project, chanRow]
+
+/-! non-vacuity: a state with two topics, filters that select and filters that select nothing -/
+example : (rows .text (filterSnap (some 1) (some 1) false (snapshot C01.exN))).length = 2 ∧
+    (rows .json (filterSnap none none true (snapshot C01.exN))).length = 3 ∧
+    (rows .json (filterSnap (some 9) none true (snapshot C01.exN))).length = 0 := by decide
+
+end Nsqd
 
 end Nsq.Props.C13
